@@ -7,6 +7,7 @@ regenerated from /repo into `LitexModel/Generated/Keywords.lean`.  Reproducibili
 import os, re, json, glob, itertools, random, shutil, collections, subprocess
 
 import c02lib as L
+import c02emit as E
 
 VERIF = L.VERIF
 CORPUS = os.path.join(VERIF, "corpus", "C02")
@@ -254,6 +255,7 @@ def run_converted(ctx, kind, payload, produce, dis):
         dis.append({"kind": "monitor", "case": "convert-text", "payload": dict(payload, producer=kind), "oracle": ["io name_override"] + f})
     for f in L.emission_order_failures(r, log):
         dis.append({"kind": "monitor", "case": "convert-text", "payload": dict(payload, producer=kind), "oracle": f})
+    emit_ties(ctx, kind, payload, r, log, dis)
     if L.legal_inputs(spec):
         ctx.cov.count("convert: hypothesis LegalSigs holds on the real back-traces")
     else:
@@ -261,6 +263,247 @@ def run_converted(ctx, kind, payload, produce, dis):
     ctx.cov.count("convert: get_name requests", len(ans))
     ctx.cov.count("convert: memories/instances/internal registers named", len(spec["extra"]))
     return len(ans), any(a != b for a, b in zip(ans, bases))
+
+
+# ----------------------------------------------------------------------------------------------------------
+# ordered emission, IO naming step, identifier classes: the real conversion against the Lean models
+# ----------------------------------------------------------------------------------------------------------
+
+def _tok_ok(s):
+    return s is not None and s != "" and not re.search(r"[\s|;]", s)
+
+
+def emit_ties(ctx, kind, payload, r, log, dis):
+    from migen.fhdl.specials import Memory, Instance
+    from migen.fhdl.structure import Signal
+    rng = random.Random(len(log))
+    text = r.main_source
+    pl = dict(payload, producer=kind)
+
+    def bad(what, real, model):
+        dis.append({"kind": "emit-tie", "case": kind, "payload": pl, "what": what, "real": real, "model": model})
+    # (a) ports and signal declarations: sorted(objs, key=get_name)  ~  declOrder
+    head = text[text.index("module top"):]
+    ports = [m.group(1) for m in (L.DECL_RE.match(l) for l in head[:head.index(");")].splitlines()[1:]) if m]
+    body = text[text.index("// Signals"):text.index("// Combinatorial Logic")]
+    decls = [m.group(1) for m in (L.DECL_RE.match(l) for l in body.splitlines()) if m]
+    # (b) specials: sorted(specials, key=duid)  ~  duidOrder
+    first = {}
+    for obj, name in log:
+        first.setdefault(id(obj), (obj, name))
+    specials = [(o, n) for o, n in first.values() if isinstance(o, (Memory, Instance))]
+    blocks = re.findall(r"^// (?:Memory|Instance) (\S+?):? ", text, flags=re.M)
+    lines, checks = [], []
+    for what, names in (("ports", ports), ("signal declarations", decls)):
+        if names and all(_tok_ok(n) for n in names):
+            sh = names[:]
+            rng.shuffle(sh)
+            lines.append("declorder " + " ".join("=" + n for n in sh))
+            checks.append((what, sh, names))
+    if specials:
+        sh = specials[:]
+        rng.shuffle(sh)
+        lines.append("duidorder " + " ".join(str(o.duid) for o, n in sh))
+        checks.append(("specials", [n for o, n in sh], blocks))
+    # (c) IO naming step
+    pre = [(io, before) for io, before in getattr(r, "c02_ios_pre", []) if io.backtrace and
+           all(_tok_ok(n) or n == "" for n, k in io.backtrace) and ":" not in "".join(n for n, k in io.backtrace) and
+           (before is None or _tok_ok(before))]
+    if pre:
+        sigs = " ; ".join("%d - %s %s" % (io.duid, "-" if before is None else "=" + before,
+                                          " ".join("%s:%d" % (n, k) for n, k in io.backtrace)) for io, before in pre)
+        lines.append("iostep %s | %s" % (sigs, " ".join(str(i) for i in range(len(pre)))))
+        checks.append(("io name_override step", None, ["-" if io.name_override is None else "=" + io.name_override for io, before in pre]))
+    # (d) identifier classes: helper registers of memories, clock-domain signals, memories, instances
+    nd = r.ns.name_dict
+    cds = {}
+    for cd in (r.ns.clock_domains or []):
+        if cd.clk is not None and cd.clk.name_override == cd.name + "_clk":
+            cds[id(cd.clk)] = ("c", cd.name)
+        if cd.rst is not None and cd.rst.name_override == cd.name + "_rst":
+            cds[id(cd.rst)] = ("r", cd.name)
+    helpers = [(o, n) for o, n in first.values() if isinstance(o, Signal) and o not in nd and id(o) not in cds]
+    exp_help, hclass = [], []
+    mems = sorted([(o, n) for o, n in specials if isinstance(o, Memory)], key=lambda x: x[0].duid)
+    hlines = []
+    for mem, mname in mems:
+        kinds = []
+        for n, port in enumerate(mem.ports):
+            k = "a" if port.async_read else ("w" if port.mode == 0 else "d")
+            kinds.append(k)
+            if k != "a":
+                hclass.append(("a" if k == "w" else "d", mname, n))
+        hlines.append("helpers =%s %s" % (mname, " ".join(kinds)))
+    outs = ctx.lean.call_batch(lines + hlines) if (lines or hlines) else []
+    for (what, sh, want), o in zip(checks, outs):
+        if what == "io name_override step":
+            if (o or "").split() != want:
+                bad(what, want, o)
+            ctx.cov.count("emit: IO naming step compared (ios)", len(want))
+            continue
+        try:
+            got = [sh[int(i)] for i in o.split()]
+        except Exception:
+            got = None
+        if got != want:
+            bad("order of %s in the text vs sorted-emission model" % what, want, got if got is not None else o)
+        ctx.cov.count("emit: %s order compared" % what, len(want))
+    for o in outs[len(lines):]:
+        exp_help += L.unq_list(o) or []
+    if exp_help != [o.name_override for o, n in helpers]:
+        bad("helper registers created by memory.py vs memHelpers", [o.name_override for o, n in helpers], exp_help)
+    elif all(_tok_ok(n) for o, n in first.values()):
+        ctx.cov.count("emit: memory helper registers compared", len(helpers))
+        idx, objs = {}, []
+        hpos = {id(o): k for k, (o, n) in enumerate(helpers)}
+        for o, n in first.values():
+            idx[id(o)] = len(objs)
+            if id(o) in cds:
+                objs.append("%s =%s 0" % cds[id(o)])
+            elif id(o) in hpos:
+                objs.append("%s =%s %d" % hclass[hpos[id(o)]])
+            elif isinstance(o, Memory):
+                objs.append("m =%s 0" % o.name_override)
+            elif isinstance(o, Instance):
+                objs.append("i =%s 0" % o.name_override)
+            else:
+                objs.append("s =%s 0" % (o.name_override if o.name_override is not None else nd[o]))
+        if variant(ctx) == "_fixed" and all(_tok_ok(x.split()[1][1:]) for x in objs):
+            out = ctx.lean.call("classanswers 1 %s | %s" % (" ".join(objs), " ".join(str(idx[id(o)]) for o, n in log)))
+            if L.unq_list(out) != [n for o, n in log]:
+                bad("identifiers of all classes (signals, memories, instances, helper registers, clock-domain signals) vs classAnswers",
+                    [n for o, n in log][:60], (out or "")[:900])
+            ctx.cov.count("emit: identifier-class requests compared", len(log))
+            ctx.cov.count("emit: clock-domain signals classified", len(cds))
+
+
+def attr_differential(ctx, dis, n):
+    """`_generate_attribute` on random attribute sets with real platform tables against `emitAttrs`; the set is
+    handed to the model in its iteration order, so a generator that stops sorting is caught in this process too."""
+    rng = random.Random(ctx.rng.randrange(1 << 30))
+    tables = E.real_tables()
+    cases, reals = [], []
+    for _ in range(n):
+        c = E.gen_attr_case(rng, tables)
+        res = guarded(ctx, dis, "emitattrs", c, lambda: E.real_emit_attrs(c))
+        if res is None:
+            continue
+        cases.append(c)
+        reals.append(res)
+    outs = ctx.lean.call_batch([E.lean_emitattrs_line(c, order) for c, (txt, order) in zip(cases, reals)])
+    nt = 0
+    for c, (txt, order), o in zip(cases, reals, outs):
+        if E.dec(o) != txt:
+            dis.append({"kind": "emitattrs", "payload": c, "real": txt, "model": o, "set_iteration_order": [list(a) if isinstance(a, tuple) else a for a in order]})
+        if E.independent_attr_text(c) != txt:
+            dis.append({"kind": "monitor", "case": "emitattrs", "payload": c, "oracle": ["attribute prefix is not the sorted one", txt, E.independent_attr_text(c)]})
+        if txt.count(",") >= 1:
+            nt += 1
+    ctx.cov.add_cases("_generate_attribute vs emitAttrs: random attribute sets (strings + tuples), %d real attr_translate tables" % len(tables),
+                      len(cases), nt, False, mode="C")
+    ctx.cov.count("emit: attr_translate tables imported from litex.build", len(tables))
+    ctx.log("_generate_attribute: %d cases (%d with >= 2 emitted attributes)" % (len(cases), nt))
+
+
+def nscd_differential(ctx, dis, n):
+    """ClockSignal / ResetSignal requests: the real get_name (clock_domains as the dict its docstring names) against
+    `namespaceAnswersCd`; unknown and reset-less domains must raise on both sides."""
+    import types
+    from migen.fhdl.structure import ClockSignal, ResetSignal
+    from litex.gen.fhdl import namer
+    if variant(ctx) != "_fixed":
+        return
+    rng = random.Random(ctx.rng.randrange(1 << 30))
+    kwset = _kw(ctx)
+    lines, reals, payloads = [], [], []
+    with L.fast_signals():
+        for _ in range(n):
+            sp = L.gen_synthetic(rng)
+            order = L.closure(sp)
+            body, pos = L.encode_sigs(sp, order)
+            cdnames = rng.sample(["sys", "por", "a", "sys_1", "if"], rng.randint(1, 3))
+            cds = [(c, rng.choice(order), rng.choice(order + [None])) for c in cdnames]
+            nsig = len(sp["sigs"])
+            reqs = []
+            for i in sp["reqs"]:
+                reqs.append(("o", i))
+                if rng.random() < 0.4:
+                    reqs.append((rng.choice("cr"), rng.choice(cdnames + ["nodomain"] * (rng.random() < 0.1))))
+            payload = {"spec": sp, "cds": cds, "reqs": reqs}
+
+            def real():
+                objs = L.materialise(sp)
+                inset = {s for s, e in zip(objs, sp["sigs"]) if e["inset"]}
+                ns = namer.build_signal_namespace(inset, kwset if sp.get("kw", True) else set())
+                ns.clock_domains = {c: types.SimpleNamespace(name=c, clk=objs[k], rst=None if rr is None else objs[rr]) for c, k, rr in cds}
+                allobjs = objs + [L._Extra(x) for x in sp.get("extra", [])]
+                out = []
+                for kind_, v in reqs:
+                    try:
+                        out.append(ns.get_name(allobjs[v] if kind_ == "o" else (ClockSignal(v) if kind_ == "c" else ResetSignal(v))))
+                    except (ValueError, AttributeError, KeyError):
+                        return "!raise"
+                return out
+            res = guarded(ctx, dis, "nscd", payload, real)
+            if res is None:
+                continue
+            rs = " ".join(str(pos[v] if v < nsig else len(order) + (v - nsig)) if k == "o" else "%s=%s" % (k, v) for k, v in reqs)
+            lines.append("nscd %d %s | %s | %s | %s" % (1 if sp.get("kw", True) else 0, body, " ".join("=" + x for x in sp.get("extra", [])),
+                                                      " ; ".join("=%s %d %s" % (c, pos[k], "-" if rr is None else pos[rr]) for c, k, rr in cds), rs))
+            reals.append(res)
+            payloads.append(payload)
+    outs = ctx.lean.call_batch(lines)
+    nraise = 0
+    for p, res, o in zip(payloads, reals, outs):
+        model = "!raise" if o == "!raise" else L.unq_list(o)
+        if model != res:
+            dis.append({"kind": "nscd", "payload": p, "real": res, "model": o})
+        if res == "!raise":
+            nraise += 1
+        else:
+            # aliases of one signal get one identifier, different signals different ones (oracle)
+            keys = [("o", v) if k == "o" else ("o", dict((c, (ck, rr)) for c, ck, rr in p["cds"])[v][0 if k == "c" else 1]) for k, v in p["reqs"]]
+            fails = [f for f in L.check_names(list(zip(keys, res))) if f[0] in ("unique", "stable")]
+            for f in fails:
+                dis.append({"kind": "monitor", "case": "nscd", "payload": p, "oracle": [str(x) for x in f]})
+    ctx.cov.add_cases("get_name with ClockSignal/ResetSignal requests vs namespaceAnswersCd", len(payloads), len(payloads) - nraise, False, mode="C")
+    ctx.cov.count("nscd: unknown / reset-less domain raised on both sides", nraise)
+    # base names of clock-domain signals: Migen's ClockDomain against cdClkBase / cdRstBase
+    from migen.fhdl.structure import ClockDomain
+    names = ["sys", "por", "a", "sys_1", "if", "clk", "x_clk", "idelay", "eth_rx", "sys4x_dqs"]
+    outs = ctx.lean.call_batch(["cdbase =" + c for c in names])
+    for c, o in zip(names, outs):
+        cd = ClockDomain(c)
+        if L.unq_list(o) != [cd.clk.name_override, cd.rst.name_override]:
+            dis.append({"kind": "cdbase", "payload": c, "real": [cd.clk.name_override, cd.rst.name_override], "model": o})
+    ctx.cov.add_cases("ClockDomain(name).clk/.rst name_override vs cdClkBase/cdRstBase", len(names), len(names), True, mode="D")
+
+
+def emission_corpus_start(ctx):
+    rng = random.Random(ctx.rng.randrange(1 << 30))
+    corpus = E.emission_corpus(rng, ctx.tier == "quick")
+    return corpus, E.start_corpus_procs(corpus)
+
+
+def emission_corpus_finish(ctx, dis, started):
+    corpus, handle = started
+    res = E.collect(handle)
+    errs, diffs = E.corpus_differences(corpus, res)
+    for e in errs:
+        dis.append({"kind": "repro-machinery", "payload": {"emission_corpus": e.get("design")}, "out": e})
+    for label, src, s0, s1, diff in diffs:
+        dis.append({"kind": "monitor", "case": "reproducibility", "payload": {"emit_src": src, "design": label, "hashseeds": [s0, s1]},
+                    "oracle": ["text of the emission-corpus design %s differs between PYTHONHASHSEED=%s and %s" % (label, s0, s1)] + diff})
+    good = [hs for hs in res if not isinstance(res[hs], str)]
+    nattr = sum(E.attr_line_count(t) for t in res[good[0]]) if good else 0
+    ctx.cov.add_cases("emission corpus (multi-attribute signals/ports/memories/instances, vendor attr_translate tables, real platforms "
+                      "with special overrides, multi-clock, sim-style comb, SoC hierarchy) in fresh interpreters under PYTHONHASHSEED=%s: "
+                      "one text (validated)" % (",".join(map(str, E.HASHSEEDS)),), len(corpus) * len(E.HASHSEEDS),
+                      (len(corpus) - len(diffs) - len(errs)) * len(E.HASHSEEDS), False, mode="repro")
+    ctx.cov.count("emission corpus: declarations carrying >= 2 emitted attributes", nattr)
+    if good and nattr < 8:
+        dis.append({"kind": "repro-machinery", "payload": {"emission_corpus": "coverage"}, "out": "only %d multi-attribute prefixes emitted" % nattr})
+    ctx.log("emission corpus: %d designs x %d hash seeds, %d differing, %d errors" % (len(corpus), len(E.HASHSEEDS), len(diffs), len(errs)))
 
 
 # ----------------------------------------------------------------------------------------------------------
@@ -509,10 +752,15 @@ def correspond(ctx):
         "C02: the request order of get_name inside verilog.convert() is observed through a harness-side recording wrapper "
         "around SignalNamespace.get_name (restored after each conversion); base names are read from the real objects",
         "C02: IEEE 1364-2005 Annex B keyword list transcribed by hand (Lean: Namer.ieee1364_2005, Python: c02lib.IEEE_1364_2005)",
-        "C02: cross-process reproducibility (PYTHONHASHSEED, set/dict order) is validated by re-running convert(), not proved",
+        "C02: cross-process reproducibility (PYTHONHASHSEED, set/dict order) is validated by re-running convert(), not proved; "
+        "the sorted-emission steps themselves (attributes, ports, declarations, specials, sync blocks) are modelled (Emit.lean) and "
+        "proved permutation-invariant",
     ]
+    started = emission_corpus_start(ctx)       # fresh interpreters run while the rest of the correspondence goes on
     sensitivity_selftest(ctx, dis)
     text_monitor_selftest(ctx, dis)
+    attr_differential(ctx, dis, 1500 if quick else 15000)
+    nscd_differential(ctx, dis, 600 if quick else 6000)
     keyword_table_check(ctx, dis)
     if getattr(ctx, "regen_changed", False):
         dis.append({"kind": "regen", "what": "Generated/Keywords.lean was not byte-identical to the committed table"})
@@ -601,6 +849,7 @@ def correspond(ctx):
     ctx.log("convert(): %d designs, %d get_name requests compared" % (ncases, nreq))
     reproducibility_check(ctx, dis, 4 if quick else 24)
     repro_ties_check(ctx, dis, 16 if quick else 150, 3 if quick else 20)
+    emission_corpus_finish(ctx, dis, started)
     ctx.log("reproducibility check done; %d disagreements in total" % len(dis))
     ex = L.gen_getname_case(random.Random(1))
     ctx.cov.samples.append({"getname_case": ex, "lean_line": L.lean_getname_line(ex)})
@@ -810,8 +1059,14 @@ def search(ctx, disagreements, proof_info):
     disagreements = getattr(ctx, "c02_dis", None) or [getattr(d, "d", d) for d in disagreements]
     # 0. a reproducibility / text monitor already holds a concrete input (design + differing lines)
     for d in disagreements:
-        if d.get("kind") == "monitor" and d.get("case") in ("keywords", "reproducibility", "convert-text"):
+        if d.get("kind") == "monitor" and d.get("case") in ("keywords", "reproducibility", "convert-text", "emitattrs", "nscd"):
             return {"case": d["case"], "input": d.get("payload"), "oracle_failures": [d.get("oracle")]}
+    # 0'. the attribute printer disagrees with the sorted-emission model: is its text a function of the attribute set?
+    acases = [d["payload"] for d in disagreements if d.get("kind") == "emitattrs"][:40]
+    if acases:
+        f = attr_repro_failure(acases)
+        if f:
+            return f
     # 0a. the real code raised or hung on a concrete valid input
     for d in disagreements:
         if d.get("kind") in ("exception", "hang"):
@@ -881,6 +1136,20 @@ def search(ctx, disagreements, proof_info):
     return None
 
 
+def attr_repro_failure(cases):
+    """`_generate_attribute` on the cases in fresh interpreters under several PYTHONHASHSEED values: the first case
+    whose text differs (model-independent oracle: the text must be a function of the attribute set)."""
+    res = E.attrs_across_hashseeds(cases)
+    good = [hs for hs in sorted(res) if not isinstance(res[hs], str)]
+    for k, c in enumerate(cases):
+        texts = {hs: res[hs][k] for hs in good}
+        if len(set(texts.values())) > 1:
+            return {"case": "emitattrs", "input": c,
+                    "oracle_failures": [["_generate_attribute text differs between PYTHONHASHSEED values",
+                                         {str(hs): t for hs, t in texts.items()}]]}
+    return None
+
+
 def _shrink_real(kind, p, still):
     cur = json.loads(json.dumps(p))
     if kind == "getname":
@@ -929,6 +1198,18 @@ def replay(ctx, payload):
         bad = named[0][1] in L.IEEE_1364_2005
         print("replay: signal named %r is emitted as %r -> %s" % (f["input"]["signal_name"], named[0][1], "STILL FAILS" if bad else "passes"))
         return 1 if bad else 0
+    if f.get("case") == "emitattrs":
+        r = attr_repro_failure([f["input"]])
+        bad = r is not None or E.independent_attr_text(f["input"]) != E.real_emit_attrs(f["input"])[0]
+        print("replay: _generate_attribute under PYTHONHASHSEED=%s:" % (E.HASHSEEDS,),
+              json.dumps(r["oracle_failures"])[:1200] if r else ("not the sorted prefix -> STILL FAILS" if bad else "one sorted text -> passes"))
+        return 1 if bad else 0
+    if f.get("case") == "reproducibility" and "emit_src" in (f.get("input") or {}):
+        corpus = [(f["input"].get("design", "design"), f["input"]["emit_src"])]
+        errs, diffs = E.corpus_differences(corpus, E.collect(E.start_corpus_procs(corpus)))
+        print("replay: emission-corpus design under PYTHONHASHSEED=%s:" % (E.HASHSEEDS,),
+              json.dumps(diffs[0][4])[:1500] if diffs else (json.dumps(errs)[:800] if errs else "one text -> passes"))
+        return 1 if (diffs or errs) else 0
     if f.get("case") == "reproducibility" and "repro_src" in (f.get("input") or {}):
         r = None
         for k in range(6):
